@@ -227,17 +227,20 @@ fn safe6(c: char) -> bool {
     (0x20..=0x7E).contains(&u) || (0xC0..=0xFF).contains(&u) || (0x410..=0x44F).contains(&u) || (0x4E00..=0x9FA5).contains(&u)
 }
 
-/// PDFDocEncoding of the characters used here: ASCII and Latin-1 letters keep their code, the rest has none
-fn canon4(s: &str, drop: bool) -> Vec<u8> {
-    let mut v = vec![];
-    for c in s.chars() {
-        let u = c as u32;
-        if (0x20..=0x7E).contains(&u) || (0xC0..=0xFF).contains(&u) {
-            v.push(u as u8);
-        } else if !drop {
-            v.push(b'?');
-        }
-    }
+fn enc4(c: char) -> bool {
+    let u = c as u32;
+    (0x20..=0x7E).contains(&u) || (0xC0..=0xFF).contains(&u)
+}
+
+/// Revisions 2-4, the canonical form of the property: PDFDocEncoding code for the characters that have one (ASCII and
+/// Latin-1 letters keep their code here), a character without a code stays what it is.
+fn atoms(s: &str) -> Vec<u32> {
+    s.chars().map(|c| if enc4(c) { c as u32 } else { (c as u32) | 0x8000_0000 }).collect()
+}
+
+/// what lopdf makes of a revision 2-4 password today: characters without a code are dropped, first 32 bytes
+fn drop4(s: &str) -> Vec<u8> {
+    let mut v: Vec<u8> = s.chars().filter(|c| enc4(*c)).map(|c| c as u32 as u8).collect();
     v.truncate(32);
     v
 }
@@ -248,21 +251,29 @@ fn canon6(s: &str) -> Vec<u8> {
     v
 }
 
+/// representable: revisions 2-4 every character has a PDFDocEncoding code; revisions 5-6 SASLprep is the identity on it
+fn representable(r: i64, s: &str) -> bool {
+    if r <= 4 { s.chars().all(enc4) } else { s.chars().all(safe6) }
+}
+
 fn rel1(r: i64, pw: &str, reference: &str) -> &'static str {
     if pw == reference {
         return "same";
     }
-    if !pw.chars().all(safe6) || !reference.chars().all(safe6) {
-        return "unsure";
-    }
     if r <= 4 {
-        // "diff" / "equiv" only if so whatever is done with characters outside PDFDocEncoding (dropped, or replaced)
-        match (canon4(pw, true) == canon4(reference, true), canon4(pw, false) == canon4(reference, false)) {
-            (false, false) => "diff",
-            (true, true) => "equiv",
-            (true, false) => "equiv", // lopdf's convention (characters without a code are dropped)
-            (false, true) => "unsure",
+        let (a, b) = (atoms(pw), atoms(reference));
+        if representable(r, pw) && representable(r, reference) {
+            // PDFDocEncoding, first 32 bytes
+            if a.iter().take(32).eq(b.iter().take(32)) { "equiv" } else { "diff" }
+        } else if !a.iter().take(8).eq(b.iter().take(8)) {
+            // whatever is done with characters PDFDocEncoding lacks (refused, or encoded injectively with <= 4 bytes
+            // each): a difference within the first 8 characters is a difference within the first 32 bytes
+            "diff"
+        } else {
+            "unsure"
         }
+    } else if !representable(r, pw) || !representable(r, reference) {
+        "unsure"
     } else if canon6(pw) != canon6(reference) {
         "diff"
     } else {
@@ -270,38 +281,30 @@ fn rel1(r: i64, pw: &str, reference: &str) -> &'static str {
     }
 }
 
-/// Relation of `pw` to the owner password.  Revisions 2-4: an owner password whose PDFDocEncoding form is empty means
-/// "there is no owner password" and Algorithm 3 (a) uses the user password in its place (lopdf since fix: c09ccb6).
-/// Whether a non-empty owner password without any encodable character is "empty" depends on the convention for such
-/// characters (dropped: lopdf; replaced: others).  As in rel1: the answer under lopdf's convention counts when it accepts
-/// the password or when the other convention agrees; otherwise "unsure" (never judged).
+/// Revisions 2-4: an empty owner password means "there is no owner password" and Algorithm 3 (a) uses the user
+/// password in its place (lopdf since fix: c09ccb6).
 fn rel_owner(r: i64, pw: &str, user: &str, owner: &str) -> &'static str {
-    if r > 4 || !canon4(owner, true).is_empty() {
-        return rel1(r, pw, owner);
-    }
-    if !pw.chars().all(safe6) || !user.chars().all(safe6) || !owner.chars().all(safe6) {
-        return "unsure";
-    }
-    let one = |drop: bool| -> &'static str {
-        let eff = if canon4(owner, drop).is_empty() { user } else { owner };
-        if pw == eff {
-            "same"
-        } else if canon4(pw, drop) == canon4(eff, drop) {
-            "equiv"
-        } else {
-            "diff"
-        }
-    };
-    let (a, b) = (one(true), one(false));
-    if a == b || a != "diff" {
-        a
+    rel1(r, pw, if r <= 4 && owner.is_empty() { user } else { owner })
+}
+
+/// does lopdf's convention of today let `pw` authenticate as (user, owner)?  (read by the impl-shaped layer only)
+fn auth_today(r: i64, pw: &str, user: &str, owner: &str) -> (bool, bool) {
+    if r <= 4 {
+        let eff = if drop4(owner).is_empty() { user } else { owner };
+        (drop4(pw) == drop4(user), drop4(pw) == drop4(eff))
     } else {
-        "unsure"
+        let ok = representable(r, pw);
+        (ok && canon6(pw) == canon6(user), ok && canon6(pw) == canon6(owner))
     }
 }
 
 fn rel(r: i64, pw: &str, user: &str, owner: &str) -> Value {
-    json!({"u": rel1(r, pw, user), "o": rel_owner(r, pw, user, owner)})
+    let (ud, od) = auth_today(r, pw, user, owner);
+    json!({"u": rel1(r, pw, user), "o": rel_owner(r, pw, user, owner), "ud": ud, "od": od, "rep": representable(r, pw)})
+}
+
+fn no_rel() -> Value {
+    json!({"u": "diff", "o": "diff", "ud": false, "od": false, "rep": true})
 }
 
 // ------------------------------------------------------------------------------------------------
@@ -355,18 +358,26 @@ fn snapshot(doc: &Document, with_trailer: bool) -> Value {
     }
 }
 
-fn run_case(k: usize, mut doc: Document, cfg: &Value, user: &str, owner: &str, calls: &[Value], seed: u64) -> Vec<Value> {
-    let mut rng = Rng::new(seed ^ 0xC05);
+/// the configuration as the trace spec reads it (password facts depend on the revision)
+fn cfg_record(cfg: &Value, user: &str, owner: &str, nobj0: usize) -> Value {
     let r = cfg["R"].as_i64().unwrap();
+    let ulen = if r <= 4 { drop4(user).len() } else { user.len() };
+    let olen = if r <= 4 { drop4(owner).len() } else { owner.len() };
+    json!({"V": cfg["V"], "R": r, "klen": cfg["klen"], "em": cfg["em"], "cf": cfg["cf"], "stmf": cfg["stmf"], "strf": cfg["strf"],
+           "ulen": ulen, "olen": olen, "e": rel(r, "", user, owner), "nobj0": nobj0,
+           "urep": representable(r, user), "orep": representable(r, owner)})
+}
+
+fn run_case(k: usize, mut doc: Document, cfg0: &Value, user: &str, owner: &str, calls: &[Value], seed: u64) -> Vec<Value> {
+    let mut rng = Rng::new(seed ^ 0xC05);
+    let mut cfg = cfg0.clone();
+    let mut r = cfg["R"].as_i64().unwrap();
+    let nobj0 = nobj(&doc);
     let (objs, mut items) = abstract_of(&doc);
     let ids0: Vec<(u32, u16)> = doc.objects.keys().copied().collect();
     let perms = Permissions::from_bits_truncate(rng.next_u64());
     let fek: Vec<u8> = (0..32).map(|_| rng.byte()).collect();
-    let ulen = if r <= 4 { canon4(user, true).len() } else { user.len() };
-    let olen = if r <= 4 { canon4(owner, true).len() } else { owner.len() };
-    let mut out = vec![json!({"ev": "Reset", "case": k,
-        "cfg": {"V": cfg["V"], "R": r, "klen": cfg["klen"], "em": cfg["em"], "cf": cfg["cf"], "stmf": cfg["stmf"], "strf": cfg["strf"],
-                "ulen": ulen, "olen": olen, "e": rel(r, "", user, owner), "nobj0": nobj(&doc)},
+    let mut out = vec![json!({"ev": "Reset", "case": k, "cfg": cfg_record(&cfg, user, owner, nobj0),
         "objs": objs, "nitems": items.len(), "perms": perms.bits() & 0xFFFF})];
     let mut state: Option<EncryptionState> = None;
     let mut file: Option<Vec<u8>> = None;
@@ -376,13 +387,23 @@ fn run_case(k: usize, mut doc: Document, cfg: &Value, user: &str, owner: &str, c
         let strict = !matches!(call, "Save" | "Load" | "Encrypt");
         let before = snapshot(&doc, strict);
         let res: Result<Result<(), String>, String> = match call {
-            "MakeState" => guarded(|| make_state(&doc, cfg, user, owner, perms, &fek)).map(|x| match x {
+            "Rekey" if doc.trailer.get(b"Encrypt").is_ok() => Ok(Err("harness:encrypted".into())),
+            "MakeState" | "Rekey" => {
+                if call == "Rekey" {
+                    // MakeState for another configuration (same passwords); a file of the old one is forgotten
+                    cfg = c["cfg"].clone();
+                    r = cfg["R"].as_i64().unwrap();
+                    file = None;
+                }
+                state = None;
+                guarded(|| make_state(&doc, &cfg, user, owner, perms, &fek)).map(|x| match x {
                 Ok(st) => {
                     state = Some(st);
                     Ok(())
                 }
                 Err(e) => Err(wire::err_tag(&e) + ":" + &format!("{e:?}").chars().take(60).collect::<String>()),
-            }),
+            })
+            }
             "Encrypt" => match &state {
                 None => Ok(Err("harness:no-state".into())),
                 Some(st) => guarded(|| doc.encrypt(st)).map(|x| x.map_err(|e| format!("{e:?}").chars().take(60).collect())),
@@ -431,7 +452,7 @@ fn run_case(k: usize, mut doc: Document, cfg: &Value, user: &str, owner: &str, c
             _ => panic!("harness: unknown call {call}"),
         };
         let mut ev = json!({"ev": "Call", "case": k, "call": call, "pos": c.get("pos").and_then(Value::as_u64).unwrap_or(0),
-            "rel": if c.get("pw").is_some() { rel(r, pw, user, owner) } else { json!({"u": "diff", "o": "diff"}) },
+            "rel": if c.get("pw").is_some() { rel(r, pw, user, owner) } else { no_rel() },
             "tenc": doc.trailer.get(b"Encrypt").is_ok(), "nobj": nobj(&doc),
             "same": snapshot(&doc, strict) == before, "items": observe(&doc, &items)});
         match res {
@@ -451,6 +472,10 @@ fn run_case(k: usize, mut doc: Document, cfg: &Value, user: &str, owner: &str, c
         }
         if let Some(t) = c.get("tok") {
             ev["tok"] = t.clone();
+        }
+        if call == "Rekey" {
+            // (a refused Rekey leaves the configuration as it was)
+            ev["cfg"] = cfg_record(&cfg, user, owner, nobj0);
         }
         out.push(ev);
     }
@@ -731,6 +756,8 @@ fn rand_string(rng: &mut Rng, class: usize) -> String {
         5 => { let n = 33 + rng.below(30); ascii(rng, n) }                                  // > 32 bytes
         6 => { let n = 128 + rng.below(40); ascii(rng, n) }                                 // > 127 bytes
         7 => { let n = 30 + rng.below(8); ascii(rng, n) }                                   // around 32
+        9 => { let n = 1 + rng.below(3); let e = pick(rng, 0x1F600, 0x1F64F, n); if rng.chance(1, 2) { e } else { let k = 1 + rng.below(5); e + &ascii(rng, k) } } // emoji
+        10 => { let k = 1 + rng.below(4); let a = pick(rng, 0x410, 0x44F, k); let n = 1 + rng.below(4); a + &ascii(rng, n) } // non-Latin, then ASCII
         _ => { let n = 43 + rng.below(4); pick(rng, 0x4E00, 0x9FA5, n) }                    // 3-byte characters around / beyond 127 bytes
     }
 }
@@ -811,8 +838,11 @@ fn rand_doc(rng: &mut Rng, cfg: &Value) -> Document {
         let mut d = Dictionary::new();
         d.set("Type", Object::Name(b"Metadata".to_vec()));
         d.set("Subtype", Object::Name(b"XML".to_vec()));
-        if rng.chance(1, 3) {
+        if rng.chance(1, 2) {
             d.set("Note", long_string(rng));
+            if rng.chance(1, 2) {
+                d.set("Nested", Object::Array(vec![long_string(rng)]));
+            }
         }
         doc.add_object(Object::Stream(Stream::new(d, b"<?xpacket begin='' id='W5M0MpCehiHzreSzNTczkc9d'?><x:xmpmeta/>".to_vec())));
     }
@@ -856,7 +886,8 @@ fn rand_doc(rng: &mut Rng, cfg: &Value) -> Document {
         d.set("Note", long_string(rng));
         doc.add_object(Object::Dictionary(d));
     }
-    if cfg["R"].as_i64().unwrap() <= 4 || rng.chance(1, 2) {
+    // (always a file identifier: a later Rekey may switch to a revision that needs it)
+    {
         let idlen = *rng.pick(&[0usize, 1, 16, 16, 32]);
         let id0: Vec<u8> = (0..idlen).map(|_| rng.byte()).collect();
         doc.trailer.set("ID", Object::Array(vec![Object::String(id0.clone(), StringFormat::Hexadecimal), Object::String(id0, StringFormat::Hexadecimal)]));
@@ -877,12 +908,20 @@ fn rand_calls(rng: &mut Rng, cfg: &Value, user: &str, owner: &str, editable: &[u
     };
     let wrong = |rng: &mut Rng| -> String {
         for _ in 0..50 {
-            let s = match rng.below(6) {
+            let odd = |c: &char| !enc4(*c);
+            let s = match rng.below(10) {
                 0 => String::new(),
+                // offers that differ from a password only in characters PDFDocEncoding lacks: another such character in
+                // its place, all of them left out, one more appended
+                6 => { let base = if rng.chance(1, 2) { user } else { owner }; let mut v: Vec<char> = base.chars().collect();
+                       let idx: Vec<usize> = v.iter().enumerate().filter(|(_, c)| odd(c)).map(|(i, _)| i).collect();
+                       if !idx.is_empty() { let i = *rng.pick(&idx); v[i] = if v[i] == 'ж' { 'щ' } else { 'ж' }; } v.into_iter().collect() }
+                7 => { let base = if rng.chance(1, 2) { user } else { owner }; base.chars().filter(|c| !odd(c)).collect() }
+                8 => { let base = if rng.chance(1, 2) { user } else { owner }; let mut b = base.to_string(); b.push(*rng.pick(&['я', '密', '🙂'])); b }
                 1 => { let mut s = user.to_string(); s.push('x'); s }            // longer: equivalent once the limit is passed
                 2 => { let mut s: Vec<char> = owner.chars().collect(); if !s.is_empty() { let i = rng.below(s.len()); s[i] = if s[i] == 'q' { 'r' } else { 'q' }; } s.into_iter().collect() }
                 3 => { let n = user.chars().count(); user.chars().take(n.saturating_sub(1)).collect() }
-                _ => { let c = rng.below(9); rand_string(rng, c) }
+                _ => { let c = rng.below(12); rand_string(rng, c) }
             };
             if rel1(r, &s, user) != "unsure" && rel1(r, &s, owner) != "unsure" {
                 return s;
@@ -917,6 +956,10 @@ fn rand_calls(rng: &mut Rng, cfg: &Value, user: &str, owner: &str, editable: &[u
         calls.push(json!({"call": "Decrypt", "pw": if rng.chance(1, 2) { user.to_string() } else { owner.to_string() }}));
         if rng.chance(1, 3) {
             edits(rng, &mut calls, 1, 2);
+            if rng.chance(1, 2) {
+                // the decrypted document (its streams keep their /Filter /Crypt entries) protected again, with another V
+                calls.push(json!({"call": "Rekey", "cfg": rand_cfg(rng)}));
+            }
             calls.push(json!({"call": "Encrypt"}));
             calls.push(json!({"call": "Decrypt", "pw": pw(rng)}));
         }
@@ -985,9 +1028,9 @@ fn main() {
             let mut cases = vec![];
             for _ in 0..n {
                 let cfg = rand_cfg(&mut rng);
-                let uc = rng.below(9);
+                let uc = rng.below(12);
                 let user = rand_string(&mut rng, uc);
-                let owner = if rng.chance(1, 6) { user.clone() } else { let oc = rng.below(9); rand_string(&mut rng, oc) };
+                let owner = if rng.chance(1, 6) { user.clone() } else { let oc = rng.below(12); rand_string(&mut rng, oc) };
                 let mut doc = rand_doc(&mut rng, &cfg);
                 // the state of the document: built in memory, or what load_mem leaves of a file with an xref stream
                 // without / with object streams
